@@ -15,7 +15,7 @@ From Coq Require Import String ZArith List Bool.
 From Knut Require Import Model.Bytes Model.Utf8 Model.UnicodeTables Model.Scanner Model.Parser
   Spec.SyntaxSpec Spec.FormatSpec Spec.LeafSpec Spec.SepSpec Proofs.ScannerProofs Proofs.ParserProofs Proofs.RoundTripLeaf
   Proofs.RoundTripTop Proofs.LeafProofs Proofs.KeywordProofs Proofs.SepProofs Proofs.DeterminedProofs
-  Spec.LocationSpec Proofs.LocationProofs.
+  Spec.LocationSpec Proofs.LocationProofs Proofs.LocationParserProofs.
 Import ListNotations.
 Open Scope Z_scope.
 
@@ -409,6 +409,33 @@ Theorem C07_error_location_inside : forall letter digit t e,
   forallb (fun x => loc_inside_b t (location t (er_end x))) e = true.
 Proof. exact parse_text_error_location_inside. Qed.
 Print Assumptions C07_error_location_inside.
+
+(* every error of a returned chain ends where a rune of the text starts (or at the end of the
+   text): the scanner only stands at offsets that Go's walk over the runes reaches -- Advance
+   moves by the width of the decoded rune, Backtrack returns to an earlier offset -- and every
+   error range ends at a scanner offset (Proofs/LocationParserProofs.v: an invariant carried
+   through every function of scanner and parser) *)
+Theorem C07_error_ends_at_rune : forall letter digit t e,
+  parse_text letter digit t = ParseErr e ->
+  forallb (fun x => rune_boundary_b t (er_end x)) e = true.
+Proof. exact parse_text_errs_at_runes. Qed.
+Print Assumptions C07_error_ends_at_rune.
+
+(* hence the position rendered for every error of the chain identifies the byte the error
+   points at: computed back from the text, line:col is the byte End *)
+Theorem C07_error_location_roundtrip : forall letter digit t e,
+  parse_text letter digit t = ParseErr e ->
+  forallb (fun x => offset_of t (location t (er_end x)) =? er_end x) e = true.
+Proof. exact parse_text_errs_roundtrip. Qed.
+Print Assumptions C07_error_location_roundtrip.
+
+(* so the verdict of the check on a rendered position -- inside the input and denoting End
+   (observed_loc_ok_b) -- accepts the model's own rendering of every error *)
+Theorem C07_error_location_verdict : forall letter digit t e,
+  parse_text letter digit t = ParseErr e ->
+  forallb (fun x => observed_loc_ok_b t (er_end x) (location t (er_end x))) e = true.
+Proof. exact parse_text_errs_verdict. Qed.
+Print Assumptions C07_error_location_verdict.
 
 (* ---- example: an error AFTER multi-byte characters on its line ----
    line 2 has 38 runes in 42 bytes (ö ü ä é are two bytes each); the parser stops at the stray
